@@ -70,6 +70,12 @@ func (bc *BaseContract) TxMultiSwapBegin(sender *types.Sender, token string, mul
 		return "", errors.New(multiswap.ErrIncorrectMultiSwap)
 	}
 
+	// the id is the transaction id, which the caller chooses on the executeTasks route:
+	// an open multi-swap must never be replaced (its escrow would be lost)
+	if _, err = multiswap.Load(bc.GetStub(), bc.GetStub().GetTxID()); err == nil {
+		return "", errors.New("multiswap already exists")
+	}
+
 	if err = multiswap.Save(bc.GetStub(), bc.GetStub().GetTxID(), &swap); err != nil {
 		return "", err
 	}
